@@ -862,7 +862,7 @@ TRUSTED = [
 ]
 
 COQ_FILES = ["C11/Model.v", "C11/NodeProofs.v", "C11/Election.v", "C11/Refute.v", "C11/LogProofs.v", "C11/LogMatching.v", "C11/Progress.v",
-         "C11/Steps.v", "C11/Ghost.v", "C11/LC.v", "C11/Stab.v", "C11/Step.v", "C11/Step2.v", "C11/Completeness.v", "C11/Progress2.v",
+         "C11/Steps.v", "C11/Ghost.v", "C11/LC.v", "C11/Stab.v", "C11/Step.v", "C11/Step2.v", "C11/Completeness.v", "C11/Progress2.v", "C11/Liveness.v",
          "Base/PyLib.v", "Gen/RaftLogGen.v", "C11/GenTie.v", "C11/Props.v"]
 
 
@@ -982,8 +982,9 @@ def run(ctx):
         "statements are also evaluated by the oracle on the implementation after every event of every explored schedule",
         "the submit-future clause is refuted on the faithful model (c11_submit_future_refuted), known finding C11-future-keyed-by-index; "
         "what holds is the last conjunct of c11_apply_in_order",
-        "liveness clause (healthy network => every command applied everywhere in submission order): checked by the oracle on the 'healthy' "
-        "family (real Simulation), not proved",
+        "liveness clause (healthy network => every command applied everywhere in submission order): proved for in-sync clusters of any size "
+        "under the canonical in-order delivery schedule (c11_liveness_*_partial) and hop by hop for every node state; for arbitrary delivery "
+        "orders and real timing it is checked by the oracle on the 'healthy' family (real Simulation)",
         "timers are not part of the model state: the cluster model lets ATimeout/AHeartbeat fire at any moment (over-approximation of every "
         "timeout draw, crash and restart); the sim family checks that the real handlers return the timer events the model predicts",
     ]
